@@ -522,6 +522,7 @@ func (c20) Exec(r *kit.Run) {
 	fsys.Profile = sc.Profile
 	interp := prolog.New(strings.NewReader(""), io.Discard)
 	interp.FS = fsys
+	fsys.Files["lib.pl"] = []byte(":- multifile(lib_hook/1).\nlib_hook(l).\n:- dynamic(lib_cnt/1).\nlib_cnt(0).\n")
 	var notes []string
 	interp.Register1(engine.NewAtom("note"), func(_ *engine.VM, t engine.Term, k engine.Cont, env *engine.Env) *engine.Promise {
 		notes = append(notes, kit.CanonTerm(t, env, kit.NewRenamer()))
@@ -619,6 +620,12 @@ func (c20) Exec(r *kit.Run) {
 		} else {
 			text = c20Join(pieces, g)
 		}
+		if (ld.Path == "consult" || ld.Path == "ensure_loaded" || ld.Path == "list" || ld.Path == "query-consult") && g.Choose(3) == 0 {
+			// the file first asks for a library file (a text of its own: it is loaded and stays loaded whatever happens to
+			// the rest of this one)
+			text = ":- ensure_loaded(lib).\n" + text
+			r.Probe("file-that-loads-a-library-first")
+		}
 		ld.Text = text
 		before := dump()
 		if before != model.dump() {
@@ -673,6 +680,22 @@ func (c20) Exec(r *kit.Run) {
 		}
 		after := dump()
 		gotNotes := append([]string(nil), notes...)
+		// the library file is loaded once, however often and from wherever it is asked for
+		if lerr := interp.Exec(":- ensure_loaded(lib).\n"); lerr != nil {
+			r.Fail("load-failed", "library-file", "ensure_loaded(lib) after load %d returned %s", li, kit.CanonErr(lerr))
+			return
+		}
+		if sol := interp.QuerySolution("findall(X, lib_hook(X), L), findall(N, lib_cnt(N), C)."); sol.Err() != nil {
+			r.Fail("load-failed", "library-file", "the library's predicates after load %d: %s", li, kit.CanonErr(sol.Err()))
+			return
+		} else {
+			v := kit.NewVars()
+			sol.Scan(v)
+			if v.Get("L") != "[l]" || v.Get("C") != "[0]" {
+				r.Fail("db-mismatch", "library-file-loaded-again:via-"+ld.Path, "after load %d (%s, fault %s, returned %s) and one more ensure_loaded(lib), the library's multifile predicate has the clauses %s and its counter %s; the file defines [l] and [0] and is loaded once\n  text: %q", li, ld.Path, ld.Fault, kit.CanonErr(err), v.Get("L"), v.Get("C"), text)
+				return
+			}
+		}
 		r.Logf("load %d via %s fault=%s pos=%d -> err=%s\n   db: %s\n   notes: %v", li, ld.Path, ld.Fault, ld.Pos, kit.CanonErr(err), after, gotNotes)
 		if ld.Path == "list2" {
 			// the first file of the list is undamaged: it is loaded whatever happens to the second one
